@@ -96,6 +96,8 @@ B('C01.plugin-name-written-when-present', ['C01'], [(P + 'tls/mysql.py', "      
 B('C07.ed448-key-labelled-ed25519', ['C07'], [(P + 'ssh/key.py', "            curve_type = NamedGroup.CURVE448\n", "            curve_type = NamedGroup.CURVE25519\n")], mention='C07.R11')
 N('benign.eddsa-curve-by-key-length', [(P + 'ssh/key.py', "        if parser['host_key_algorithm'].value.signature == Signature.ED448:", "        if len(parser['key_data']) == 57:")])
 B('C07.principals-ascii-only', ['C07'], [(P + 'ssh/key.py', "        parser.parse_string('value', 4, 'utf-8')", "        parser.parse_string('value', 4, 'ascii')")], mention='SshString')
+B('C07.ecdsa-point-by-library-helper', ['C07'], [(P + 'ssh/key.py', "        composer.compose_bytes(point_composer.composed_bytes, 4)\n", "        composer.compose_bytes(self.public_key.params.octet_bit_string, 4)\n")], mention='C07.R12')
+B('C07.ecdsa-coordinate-size-floored', ['C07'], [(P + 'ssh/key.py', "        coordinate_size = (named_group.value.size + 7) // 8", "        coordinate_size = named_group.value.size // 8")], mention='C07.R12')
 B('C02.unsupported-width', ['C02'], [(P + 'tls/extension.py', "        parser.parse_numeric('record_size_limit', 2)", "        parser.parse_numeric('record_size_limit', 5)")], props=['C02'])
 B('C02.raw-index', ['C02'], [(P + 'tls/extension.py', "        if parser['extension_data']:\n            raise InvalidValue(parser['extension_data'], cls)",
                              "        if parser['extension_data'][0]:\n            raise InvalidValue(parser['extension_data'], cls)")])
